@@ -262,6 +262,10 @@ def main():
             print("%s: %s" % (pid, w["what"]))
         print("VIOLATION property=%s replay=%s no-failing-input-found" % (pid, path))
         sys.exit(1)
+    skipped = sorted(set(ctx.get("skipped_env", [])))
+    if skipped:
+        # said aloud: cases the environment did not let run are not counted as evidence (see skipped_environment in the evidence file)
+        print("%s: NOTE %d kind(s) of cases could not run in this environment and were skipped: %s" % (pid, len(skipped), ", ".join(skipped)[:300]))
     print("%s: ok (%d obligations discharged, %d cases, %d vm_compute cross-checked, %.1fs)"
           % (pid, discharged, len(cases), vm_checked, wall))
     sys.exit(0)
